@@ -64,6 +64,14 @@ func (obj *Array) ArrayType() Symbol {
 
 // Assumes dims and size arrays already allocated. Used by the reader.
 func (obj *Array) calcAndSet(list List) {
+	if len(obj.dims) == 0 {
+		// An array of rank 0 has exactly one element, the object after #0A.
+		var content Object
+		if 0 < len(list) {
+			content = list
+		}
+		obj.elements = []Object{content}
+	}
 	if 0 < len(obj.dims) {
 		orig := list
 		var ok bool
@@ -222,6 +230,9 @@ func (obj *Array) MajorSet(index int, value Object) {
 func (obj *Array) AsList() (list List) {
 	if 0 < len(obj.dims) {
 		list, _ = obj.listifyDim(0, 0)
+	} else if 0 < len(obj.elements) {
+		// Rank 0, the one element is the content when it is a list.
+		list, _ = obj.elements[0].(List)
 	}
 	return
 }
